@@ -230,6 +230,13 @@ def field_trace(k, gaps=0, gseed=0):
     src = sorted(parse(z_text))
     rain = dict(parse(FF._read("precipitation", k)))
     et = dict(parse(FF._read("evapotranspiration", k)))
+    t = build_trace(conn, src, rain, et)
+    t["id"] = "load field%d gaps=%d" % (k, gaps)
+    return t, sum(1 for e in t["events"] if e["k"] == "grid")
+
+
+def build_trace(conn, src, rain, et):
+    """merge the SOURCE level rows with what load STORED per grid instant (see TraceLoad.tla)"""
     (step_s, zone) = conn.execute("SELECT time_step_s, source_time_zone FROM time_grid").fetchone()
     grid = conn.execute("SELECT epoch, data_interval FROM grid_time ORDER BY epoch").fetchall()
     lev = dict(conn.execute("SELECT epoch, zeta_mm FROM water_level").fetchall())
@@ -252,8 +259,53 @@ def field_trace(k, gaps=0, gseed=0):
         events.append(_grid_event(grid, gi, ng, e0, tick, lev, srain, set_, rain, et, fx))
         gi += 1
     assert all((t - e0) % tick == 0 for t in src_t)
-    return {"id": "load field%d gaps=%d" % (k, gaps), "step": step_s // tick, "srcStep": src_step // tick,
-            "tol": 2, "events": events}, len(grid)
+    return {"id": "load", "step": step_s // tick, "srcStep": src_step // tick, "tol": 2, "events": events}
+
+
+def random_load_trace(seed_):
+    """irregular inputs TLC did not choose: level on a 1..20 minute step unrelated to the rainfall step,
+    random offsets, several gaps of random length, shuffled rows; loaded through the CLI"""
+    rng = random.Random(seed_)
+    P_ = rng.choice([600, 900, 1200, 1800, 3600])
+    Q_ = 60 * rng.choice([1, 2, 5, 7, 10, 13, 20, 30])
+    e0 = P.epoch_of(2009, 1, 1) + 86400 * rng.randint(0, 4000) + 3600 * rng.randint(0, 23)
+    n_rain = rng.randint(12, 60)
+    r0 = e0 + rng.randint(0, 5) * P_
+    rain = {r0 + i * P_: round(rng.choice([0, 0, 0, rng.uniform(0, 30)]), 3) for i in range(n_rain)}
+    et = {r0 + (i - 2) * P_: round(rng.uniform(0, 0.6), 4) for i in range(n_rain + 5)}
+    z0 = e0 + 60 * rng.randint(0, 240)
+    n_lev = max(4, int((n_rain * P_ * rng.uniform(0.4, 1.1)) // Q_))
+    lev_t = [z0 + i * Q_ for i in range(n_lev)]
+    for _ in range(rng.randint(0, 4)):
+        a = rng.randrange(1, max(2, n_lev - 2))
+        cut = set(range(a, a + rng.choice([1, 1, 2, 5, 11])))
+        lev_t = [t for i, t in enumerate([z0 + i * Q_ for i in range(n_lev)]) if i not in cut and t in lev_t]
+    if len(lev_t) < 3 or min(b - a for a, b in zip(lev_t, lev_t[1:])) != Q_:
+        return None, None
+    z = -200.0
+    src = []
+    for t in lev_t:
+        z += rng.uniform(-3, 4)
+        src.append((t, round(z, 3)))
+    wd = workdir("rload")
+    try:
+        rr, ee, ll = list(rain.items()), list(et.items()), list(src)
+        for x in (rr, ee, ll):
+            rng.shuffle(x)
+        files = P.Files(wd, rr, ee, ll, "UTC", tag="r")
+        db = os.path.join(wd, "r.sqlite3")
+        o = P.cli(files.load_argv(db))
+        if not o.ok:
+            return None, o.describe()
+        conn = sqlite3.connect(db)
+        try:
+            t = build_trace(conn, sorted(src), rain, et)
+        finally:
+            conn.close()
+        t["id"] = "random load %d (rain %ds, level %ds, %d level rows)" % (seed_, P_, Q_, len(src))
+        return t, None
+    finally:
+        rm(wd)
 
 
 def _grid_event(grid, gi, ng, e0, tick, lev, srain, set_, rain, et, fx):
@@ -287,7 +339,17 @@ def field_loads(chk, tier):
         t, n = field_trace(k, g, seed() + g)
         traces.append(t)
         chk.count("evaluations")
-    with ThreadPoolExecutor(max_workers=6) as ex:
+    with mp.Pool(12) as pool:
+        rnd = pool.map(random_load_trace, [seed() * 100000 + i for i in range(40 if tier == "quick" else 600)])
+    refused = 0
+    for t, err in rnd:
+        if t is not None:
+            traces.append(t)
+            chk.count("evaluations")
+        elif err is not None:
+            refused += 1           # e.g. rainfall not covering two steps of the level span: load refuses
+    chk.cov["random_loads_refused_by_load"] = refused
+    with ThreadPoolExecutor(max_workers=10) as ex:
         results = list(ex.map(_validate, traces))
     for t, res in zip(traces, results):
         chk.add_tlc(res, "TraceLoad " + t["id"])
